@@ -8,11 +8,11 @@ import sys
 import time
 import traceback
 
-from .pm import Program, AnalysisError, norm
+from .pm import Program, AnalysisError, Undecided, norm
 
 VERIF = os.path.dirname(os.path.dirname(os.path.abspath(__file__)))
 
-HOLDS, VIOLATED, KNOWN, ERROR = "HOLDS", "VIOLATED", "KNOWN", "ANALYSIS-ERROR"
+HOLDS, VIOLATED, KNOWN, ERROR, UNDECIDED = "HOLDS", "VIOLATED", "KNOWN", "ANALYSIS-ERROR", "UNDECIDED"
 
 
 class Finding:
@@ -46,8 +46,10 @@ class Ob:
         self.samples = []
         self.error = None
         self.analysed = []
+        self.undecided = []
 
     def reset(self):
+        self.undecided = []
         self.instances = 0
         self.nontrivial = set()
         self.findings = []
@@ -98,6 +100,11 @@ class Ctx:
         if sample is not None and len(self.cur.samples) < 6:
             self.cur.samples.append(sample)
 
+    def undecided(self, key, where, msg):
+        """one instance whose code shape the rule cannot read: no verdict for it (reported, exit code unaffected)"""
+        self.cur.instances += 1
+        self.cur.undecided.append("%s %s: %s" % (key, where, msg))
+
     def check(self, cond, key, where, msg, what=None, sample=None):
         if cond:
             self.ok(what or key, sample)
@@ -147,8 +154,10 @@ def run_property(pid, obligations, tier, only=None, quiet=False):
         ctx.cur = ob
         try:
             ob.fn(ctx)
-            if ob.instances < ob.floor and not ob.findings:
+            if ob.instances < ob.floor and not ob.findings and not ob.undecided:
                 raise AnalysisError("rule matched %d instances, hand-confirmed floor is %d (rule would pass vacuously)" % (ob.instances, ob.floor))
+        except Undecided as e:
+            ob.undecided.append(str(e))
         except AnalysisError as e:
             ob.error = str(e)
         except Exception as e:  # Unsupported, PyRaise, bugs: never a verdict
@@ -169,6 +178,8 @@ def run_property(pid, obligations, tier, only=None, quiet=False):
             verdict = ERROR
         elif ob.findings:
             verdict = KNOWN
+        elif ob.undecided:
+            verdict = UNDECIDED
         if verdict == VIOLATED:
             for i, f in enumerate(new):
                 viol += 1
@@ -178,6 +189,8 @@ def run_property(pid, obligations, tier, only=None, quiet=False):
                            "message": f.msg, "breaks_if": ob.breaks_if, "tier": tier}, open(rp, "w"), indent=1)
                 lines.append("VIOLATED %s %s: %s" % (ob.id, f.where, f.msg))
                 lines.append("VIOLATION property=%s replay=%s" % (pid, rp))
+        for u in ob.undecided:
+            lines.append("UNDECIDED property=%s rule=%s %s" % (pid, ob.id, u))
         if ob.error:
             errs += 1
             lines.append("ANALYSIS-ERROR property=%s rule=%s %s" % (pid, ob.id, ob.error))
@@ -199,7 +212,7 @@ def run_property(pid, obligations, tier, only=None, quiet=False):
         samples.append({"obligation": ob.id, "title": ob.title, "engines": ob.engines, "verdict": v,
                         "instances": ob.instances, "floor": ob.floor, "breaks_if": ob.breaks_if,
                         "analysed": ob.analysed[:12], "cases": ob.samples[:4],
-                        "findings": [f.to_json() for f in ob.findings][:6], "error": ob.error})
+                        "findings": [f.to_json() for f in ob.findings][:6], "error": ob.error, "undecided": ob.undecided[:6]})
     evidence = {
         "property_id": pid,
         "tier": tier,
